@@ -369,9 +369,13 @@ func runParent(id, tier string) int {
 	if int64(W) > n {
 		W = int(max(n, 1))
 	}
-	wd := 900
+	// generous wall-clock watchdog per worker; its firing only makes the run inconclusive
+	wd := 1800
+	if tier == "thorough" {
+		wd = 6 * 3600
+	}
 	if p.Watchdog != nil {
-		wd = p.Watchdog(tier)
+		wd = max(wd, p.Watchdog(tier))
 	}
 	type wstate struct {
 		start, skip int64
